@@ -38,6 +38,7 @@ func cmdUnits(args []string) {
 	dump := fs.String("dump", "", "directory for SMT queries")
 	to := fs.Int("timeout", 20000, "per-query timeout ms")
 	verbose := fs.Bool("v", false, "verbose")
+	covers := fs.Bool("covers", false, "advisory reachability check of every return (dead code / vacuity)")
 	nosolve := fs.Bool("nosolve", false, "generate only")
 	fs.StringVar(&repoDir, "repo", repoDir, "repository directory")
 	fs.Parse(args)
@@ -45,6 +46,7 @@ func cmdUnits(args []string) {
 	cfg.DumpDir = *dump
 	cfg.TimeoutMs = *to
 	cfg.Verbose = *verbose
+	cfg.CoverReturns = *covers
 	t0 := time.Now()
 	var pats []string
 	for _, p := range strings.Split(*pk, ",") {
@@ -112,7 +114,10 @@ func cmdUnits(args []string) {
 				mark = "FAIL"
 				bad++
 			}
-			if *verbose || o.Status != "discharged" {
+			if strings.Contains(o.Res.Solver, "(UNREACHABLE)") {
+				mark = "WARN"
+			}
+			if *verbose || o.Status != "discharged" || mark == "WARN" {
 				fmt.Printf("   %s %-10s %s  [%s %s %.2fs %dB] %s\n", mark, o.Status, o.Name, o.Res.Solver, o.Res.Status, o.Res.Time, o.QuerySz, o.Pos)
 				if o.Diag != "" {
 					fmt.Printf("      diag:%s\n", o.Diag)
@@ -129,6 +134,28 @@ func cmdUnits(args []string) {
 			for _, n := range r.Assumed {
 				fmt.Printf("   assumed: %s\n", n)
 			}
+		}
+	}
+	if os.Getenv("GOVC_HOGS") != "" {
+		type hog struct {
+			name string
+			t    float64
+			n    int
+		}
+		var hs []hog
+		for _, o := range all {
+			sum := 0.0
+			for _, tr := range o.Res.Tried {
+				p := strings.Split(tr, ":")
+				var f float64
+				fmt.Sscanf(strings.TrimSuffix(p[len(p)-1], "s"), "%f", &f)
+				sum += f
+			}
+			hs = append(hs, hog{o.Name, sum, len(o.Res.Tried)})
+		}
+		sort.Slice(hs, func(i, j int) bool { return hs[i].t > hs[j].t })
+		for i := 0; i < len(hs) && i < 25; i++ {
+			fmt.Printf("hog %7.1fs %3d tries %s\n", hs[i].t, hs[i].n, hs[i].name)
 		}
 	}
 	fmt.Printf("total %d obligations, %d not discharged, %.1fs\n", len(all), bad, time.Since(t0).Seconds())
